@@ -99,9 +99,9 @@ ENGINES = [
     },
     {
         "name": "main-run-model",
-        "path": "spec/MainRun.tla spec/MC_MainRun_*.cfg harness/mainrun_replay.py checks/c05.py checks/c10.py",
-        "serves_properties": ["C05", "C10"],
-        "kind_free_text": "TLC model-checks halmos._main (contract and function selection, one process over several contracts, setUp failures, the once-only logger, the process exit code), refutes three design mutations and prints all 288 terminal states (projects x selections x --depth), which are replayed through the real _main on hand-assembled artifacts",
+        "path": "spec/MainRun.tla spec/MC_MainRun_*.cfg harness/mainrun_replay.py checks/c05.py checks/c10.py checks/c20.py",
+        "serves_properties": ["C05", "C10", "C20"],
+        "kind_free_text": "TLC model-checks halmos._main (contract and function selection, one process over several contracts and compilation units, setUp failures, the once-only logger, the process exit code), refutes three design mutations and prints all 1280 terminal states (projects x selections x --depth), which are replayed through the real _main on hand-assembled artifacts (quick tier: the histories in which process-wide state matters plus a sample)",
     },
     {
         "name": "word-tables",
